@@ -55,6 +55,17 @@ CHECKS = {
     note=NOTE_COMMON + 'syn is not modelled. The process-level half (errors => non-zero exit, no file written) is observed on the real binary; its model lives with C17.',
     technique='Rocq proof (induction over nested type syntax, case analysis of the item parsers) + planted-construct differential correspondence',
     design='§11 C08'),
+ 'C06': dict(
+    text='Machine-checked theorems (Props/C06.v, closed under the global context): in single-file mode, for any number of per-file parse '
+         'results and EVERY permutation of their arrival at the collector, the collector fold followed by reconcile_aliases hands the back end '
+         'the same four item lists (stable sort of permuted lists with distinct keys is unique; the serde-rename table answers every lookup '
+         'identically), all six modelled generators are functions of those lists, hence identical bytes; refutation witness for same-named '
+         'items. Real threads and hash seeds, which no model can exhibit, are observed directly: the real binary under all k! arrival orders '
+         '(hook) in single- and multi-file mode, and repeated fresh processes under taskset with 1..16 CPUs on trees of 100-300 files; the '
+         'identity order is compared byte for byte with the model. Multi-file mode (imports, hash-ordered fallbacks) is exercised, not proved.',
+    note=NOTE_COMMON + 'Partial w.r.t. the runtime: thread scheduling and HashMap seeds are sampled. Hook: cli/src/parse.rs TYPESHARE_VERIF_ORDER. The genuine defect found (consts never sorted) was repaired by the fix: commit recorded in KNOWN_FINDINGS.jsonl; the model follows the repaired code.',
+    technique='Rocq proof (permutation invariance of fold + stable sort, all arrival orders) + exhaustive arrival-order runs of the real binary via hook + repeated-process sampling',
+    design='§11 C06'),
 }
 NOT_YET = {}
 def main():
